@@ -364,10 +364,12 @@ Theorem nil_argument_refuted :
   parse_payload KExpr (print_payload expr_is_prop y) = Err ESyntax.
 Proof. vm_compute. reflexivity. Qed.
 
-(* ... and in a when-list it parses to a SHORTER list: `when 1, nil, 2` comes back as `when 1` *)
+(* ... and so does a when-list in strict mode (`when 1, nil, 2` is written `when 1, , 2`); before fix C03-when-list-strict -- and
+   still in lax mode -- it parsed to a SHORTER list, `when 1` *)
 Theorem nil_when_refuted :
-  parse_payload KWhen (print_payload expr_is_prop (YWhen [PInt 1; PNil; PInt 2])) = Ok (YWhen [PInt 1]).
-Proof. vm_compute. reflexivity. Qed.
+  parse_payload KWhen (print_payload expr_is_prop (YWhen [PInt 1; PNil; PInt 2])) = Err ESyntax /\
+  parse_when_old (print_payload expr_is_prop (YWhen [PInt 1; PNil; PInt 2])) = Ok [PInt 1].
+Proof. vm_compute. split; reflexivity. Qed.
 
 (* before fix C04-1 a path segment named like a keyword was written in dotted form: x['if'] -> x.if *)
 Theorem old_keyword_segment_refuted :
